@@ -546,6 +546,10 @@ CORPUS = [
     [[([("sauce for ", 2)], False, ("step", ("boil",), [_leaf("tomatoes", ("qty", 400, "g", "", "")), _leaf("water")])),
       (None, False, ("step", ("top with",), [_leaf("pasta"), ("leaf", None, ("sauce for ", 2)), _leaf("sauce for 2")]))]],
     [[([("dough ", Fraction(1, 2))], False, ("step", ("knead",), [_leaf("flour")])), ([("dough ", 0.5)], False, ("step", ("prove",), [_leaf("yeast")]))]],
+    # the whole amount in another unit of the same kind, one or both unit names not in lower case
+    [[([("meat",)], False, ("step", ("slice",), [_leaf("spam", ("qty", 1, "kg", " ", ""))])), (None, False, ("step", ("fry",), [_leaf("meat", ("qty", 1000, "G", " ", "")), _leaf("eggs")]))]],
+    [[(None, False, _leaf("milk", ("qty", 2, "Pints", " ", " of"))), (None, False, ("step", ("warm",), [_leaf("milk", ("qty", 2, "PINT", "", "")), _leaf("sugar")]))]],
+    [[(None, False, _leaf("butter", ("qty", 1, "LB", "", ""))), (None, False, ("step", ("cream",), [_leaf("butter", ("qty", 16, "Oz", " ", " of the")), _leaf("sugar")]))]],
 ]
 
 
